@@ -40,7 +40,7 @@ def run(ctx):
     quick = ctx["tier"] == "quick"
     runs = [("seq", 400 if quick else 6000, 30, 70),
             ("par", 700 if quick else 12000, 30, 71),
-            ("par", 40 if quick else 600, 120, 72),
+            ("par", 30 if quick else 400, 64 if quick else 120, 72),
             ("parperm", 8 if quick else 150, 14, 73)]
     rs = []
     for (mode, count, maxn, so) in runs:
